@@ -279,6 +279,24 @@ package core
 //@ lemma includeComponents : [C08] forall s string :: includeNameOK(s) ==> (forall i int, j int :: 0 <= i && i < j && j <= len(s)
 //@      && (i == 0 || s[i-1] == '/') && (j == len(s) || s[j] == '/') && (s[i:j] == "." || s[i:j] == "..") ==> i == 0 && j == len(s))
 
+// The option function: the core's banned set becomes its old set plus exactly the listed kinds, and the map that holds it
+// is the core's own - the one it had, or one made here - never one that another core or another option can reach.
+//@ func WithBannedDirectives$1
+//@   tag C18 C01
+//@   requires c != nil
+//@   modifies c.bannedDirectives, mapof(c.bannedDirectives)
+//@   ensures [C18] c.bannedDirectives == old(c.bannedDirectives) || fresh(c.bannedDirectives)
+//@   ensures [C18] forall k directive.Enumeration :: old(has(c.bannedDirectives, k)) ==> has(c.bannedDirectives, k)
+//@   ensures [C18] forall i :: 0 <= i && i < len(dd) ==> has(c.bannedDirectives, dd[i])
+//@   ensures [C18] forall k directive.Enumeration :: has(c.bannedDirectives, k) && !old(has(c.bannedDirectives, k)) ==> (exists i :: 0 <= i && i < len(dd) && dd[i] == k)
+//@   loop 1 invariant 0 - 1 <= rangeindex && rangeindex <= rangelen - 1 && rangelen == len(dd) && c.bannedDirectives != nil
+//@   loop 1 invariant c.bannedDirectives == old(c.bannedDirectives) || fresh(c.bannedDirectives)
+//@   loop 1 invariant forall k directive.Enumeration :: old(has(c.bannedDirectives, k)) ==> has(c.bannedDirectives, k)
+//@   loop 1 invariant forall i :: 0 <= i && i <= rangeindex ==> has(c.bannedDirectives, dd[i])
+//@   loop 1 invariant forall k directive.Enumeration :: has(c.bannedDirectives, k) && !old(has(c.bannedDirectives, k)) ==> (exists i :: 0 <= i && i <= rangeindex && dd[i] == k)
+//@   loop 1 decreases rangelen - rangeindex
+//@   loop 1 frame c.bannedDirectives
+
 // The banned set is consulted only where a directive kind is consumed (C18 "the option changes nothing else":
 // any other function reading it fails this frame scan by name).
 //@ readers [C18] JApiCore.bannedDirectives : (*JApiCore).setCurrentDirective, (*JApiCore).addDirective, (*JApiCore).processInclude, (*JApiCore).addMacro, (*JApiCore).processPasteDirective, WithBannedDirectives$1
